@@ -599,8 +599,7 @@ class PythonPrimitiveToStoneDecoder:
                 if not isinstance(key, str):
                     raise bv.ValidationError(
                         'expected string key, got %s' % bv.generic_type_name(key))
-                if (key not in all_field_names and
-                        not key.startswith('.tag')):
+                if key not in all_field_names and key != '.tag':
                     raise bv.ValidationError("unknown field '%s'" % key)
         ins = data_type.definition()
         self.decode_struct_fields(ins, all_fields, obj)
